@@ -65,6 +65,7 @@ def programs(draw, tier):
     models = [draw(gen.state_case(n=(1, 4), nh=(1, 4), na=(1, 4), scales=[0.05, 0.5, 2.0], bound=50.0, unitaries=True)) for _ in range(draw(st.integers(1, 3)))]
     for m in models:
         m["alt"] = draw(st.integers(0, 2 ** 16))
+        m["bare_dict"] = draw(st.integers(0, 3)) == 0
     metas = [draw(metadata_obj()) for _ in range(draw(st.integers(1, 3)))]
     nfiles = draw(st.integers(1, 3))
     ops = []
@@ -74,7 +75,7 @@ def programs(draw, tier):
         if kind == "reserved":
             op["key"] = draw(st.sampled_from(["rbm_am", "rbm_ph", "unitary_dict"]))
         if kind == "load":
-            op["target"] = draw(st.sampled_from(["fresh", "fresh_extra_unitary", "used"]))
+            op["target"] = draw(st.sampled_from(["fresh", "fresh_extra_unitary", "used", "self", "self"]))
         if kind in ("train", "model_saver", "randomise"):
             op["seed"] = draw(st.integers(0, 2 ** 31 - 1))
         ops.append(op)
@@ -103,7 +104,10 @@ def tiny_data(state, n):
     data = torch.tensor([R.index_to_row(k % (2 ** n), n) for k in range(4)], dtype=torch.double)
     data[1] = 0.0      # rotated rows use the all-zeros outcome (generically non-negligible amplitude)
     data[3] = 0.0
-    bases = np.array([["Z"] * n, ["X"] * n, ["Z"] * n, ["Y"] + ["Z"] * (n - 1)])
+    if "X" in getattr(state, "unitary_dict", {"X": 1}):
+        bases = np.array([["Z"] * n, ["X"] * n, ["Z"] * n, ["Y"] + ["Z"] * (n - 1)])
+    else:
+        bases = np.array([["Z"] * n, ["H"] * n, ["Z"] * n, ["H"] + ["Z"] * (n - 1)])
     return data, bases
 
 
@@ -134,6 +138,10 @@ def check(case):
     from qucumber.nn_states import ComplexWaveFunction, DensityMatrix, PositiveWaveFunction
     cls = {"positive": PositiveWaveFunction, "complex": ComplexWaveFunction, "density": DensityMatrix}
     states = [gen.build_state(m) for m in case["models"]]
+    for m, st_ in zip(case["models"], states):
+        if m.get("bare_dict") and m["type"] != "positive":
+            # a hand-built dictionary that does not contain all the defaults (legitimate: only 'Z' is special to the library)
+            st_.unitary_dict = {"Z": st_.unitary_dict["Z"].clone(), "H": R.c_to_lib(R.unitary_from_angles(0.4, 0.1, 0.9, -0.3))}
     metas = [decode_meta(m) for m in case["metas"]]
     files = {}     # file index -> model record
     labels = set()
@@ -191,9 +199,16 @@ def check(case):
                     continue
                 rec = files[fj]
                 if kind == "load":
-                    tgt = fresh_like(rec["spec"], op.get("target", "fresh"))
+                    how = op.get("target", "fresh")
+                    same_shape = lambda a, b: (a["type"], a["n"], a["nh"], a.get("na")) == (b["type"], b["n"], b["nh"], b.get("na"))
+                    if how == "self" and same_shape(rec["spec"], spec):
+                        # load into a model of the program itself: it stays in use (trained, saved, loaded again) afterwards
+                        tgt = state
+                    else:
+                        how = "fresh" if how == "self" else how
+                        tgt = fresh_like(rec["spec"], how)
                     tgt.load(path(fj))
-                    labels.add("load_target=" + op.get("target", "fresh"))
+                    labels.add("load_target=" + how)
                 else:
                     tgt = cls[rec["spec"]["type"]].autoload(path(fj), gpu=False)
                     s_ = rec["spec"]
